@@ -22,7 +22,8 @@ RULE = ("Operation trees as in C15 (parse, &, |, only, exclude, without_extras, 
         "parenthesis or a grouped ==/!= atom.")
 ASSUMPTIONS = [
     "equivalence of the re-parsed marker is decided by evaluate() on sampled critical environments (final releases)",
-    "the F4 / F5 / F12 strata are excluded here (their atoms are C02/C03's subject); reversed comparison atoms are included",
+    "the F5 / F12 strata are excluded here (their atoms are C02/C03's subject); reversed comparison atoms are included; "
+    "literal-on-the-left in/not in atoms form a separate stratum (each case rendered after its orientation twin)",
 ]
 MIN_EVENTS = {"roundtrip": 3000, "MultiMarker.__str__": 300, "MarkerUnion.__str__": 300}
 MIN_SHAPES = {"text:parenthesised": 200, "text:group-atom": 20, "text:reversed-atom": 50}
@@ -66,18 +67,66 @@ def _run_tree(ctx):
 
     def run_tree(tree):
         ctx.cases += 1
-        ctx.current_case = {"kind": "mtree", "tree": tree}
+        ctx.current_case = {"kind": "mtree", "tree": tree, "stratum": ctx.stratum}
         # str() of a node value is workload here: let the inner __str__ monitors see it
         MM.eval_marker_tree(ctx, tree, on_node, prop=PROP, watchdog=5.0 if ctx.tier == "quick" else 20.0)
         root = None
     return run_tree
 
 
+def _twin(text: str) -> str:
+    """The same text with every string-variable in/not in atom written the other way round
+    (`"lit" in var` <-> `var in "lit"`): equal under the library's ==, different in meaning."""
+    import re
+
+    def fwd(m):
+        return f'{m.group(3)} {m.group(2)} {m.group(1)}'
+
+    def rev(m):
+        return f'{m.group(3)} {m.group(2)} {m.group(1)}'
+
+    t = re.sub(r'("[^"]*")\s+(not in|in)\s+((?:os_name|sys_platform|platform_machine|platform_system|implementation_name|platform_python_implementation))',
+               lambda m: "\x00" + fwd(m), text)
+    t = re.sub(r'(?<!\x00)((?:os_name|sys_platform|platform_machine|platform_system|implementation_name|platform_python_implementation))\s+(not in|in)\s+("[^"]*")',
+               rev, t)
+    return t.replace("\x00", "")
+
+
+def _revin(ctx):
+    """Literal-on-the-left in/not in atoms: every case is rendered after its orientation twin has
+    been rendered in the same process (caches known to the harness are cleared in between), so a
+    rendering that is shared between the two equal-but-different markers is observed."""
+    ctx.stratum = "revin"
+    rnd = ctx.rnd
+    cfg = MW.Cfg(rev_in=True, few_vars=["sys_platform", "os_name"], extras=False, release=False)
+    run_tree = _run_tree(ctx)
+    n = 120 if ctx.tier == "quick" else 1500
+    for _ in range(n):
+        a, b = MW.gen_pair(rnd, cfg, 5, depth=1)
+        if '" in ' not in a + b and '" not in ' not in a + b:
+            continue
+        op = rnd.choice(["and", "or"])
+        twin = [op, ["m", _twin(a)], ["m", _twin(b)]]
+        tree = [op, ["m", a], ["m", b]]
+        for t in (twin, tree):
+            MM.clear_caches()
+            run_tree(t)
+            ctx.shape("stratum:revin")
+    MM.clear_caches()
+    ctx.stratum = "main"
+
+
 def run(ctx):
     run_trees(ctx, _run_tree(ctx), n_random=900 if ctx.tier == "quick" else 20000, max_atoms=7 if ctx.tier == "quick" else 9,
               small_frac=0.5 if ctx.tier == "quick" else 1.0)
+    _revin(ctx)
 
 
 def replay(ctx, case):
     MM.clear_caches()
+    ctx.stratum = case.get("stratum", "main")
+    if ctx.stratum == "revin" and case["tree"][0] in ("and", "or") and case["tree"][1][0] == "m" and case["tree"][2][0] == "m":
+        t = case["tree"]
+        _run_tree(ctx)([t[0], ["m", _twin(t[1][1])], ["m", _twin(t[2][1])]])  # the orientation twin first
+        MM.clear_caches()
     _run_tree(ctx)(case["tree"])
